@@ -176,7 +176,7 @@ class Ctx:
         res["ok"] = bool(ok)
         log("tlc %s/%s: %s generated=%d distinct=%d %.1fs%s" % (
             module, cfg, "ok" if ok else "ERR", res["generated"], res["distinct"], res["wall"],
-            (" violations=%s" % inv) if inv else ""))
+            (" violations=%s" % sorted(set(inv))) if inv else ""))
         if count and ok:
             self.states += res["distinct"]
             self.transitions += res["generated"]
@@ -328,6 +328,9 @@ class Ctx:
             with open(path, "w") as fh:
                 json.dump({"property": self.pid, "clause": clause, "signature": sig, "count": len(fs),
                            "case": f}, fh, indent=1, default=str)
+            if self.pid.startswith("X"):
+                print("EXTENSION-VIOLATION spec=%s replay=%s clause=%s signature=%s cases=%d" % (self.pid, path, clause, sig, len(fs)))
+                continue
             print("VIOLATION property=%s replay=%s clause=%s signature=%s cases=%d" % (
                 self.pid, path, clause, sig, len(fs)))
         cov = {
@@ -353,7 +356,7 @@ class Ctx:
             "wall_s": round(time.time() - self.t0, 1),
             "violations": len(viol),
         }
-        evdir = EVID
+        evdir = EVID if not self.pid.startswith("X") else os.path.join(ROOT, "extras", "evidence")
         if os.environ.get("VERIF_EVIDENCE_SKIP"):        # runs against a deliberately broken tree (bin/seedtest)
             evdir = os.path.join(ROOT, ".work", "evidence-scratch")
         os.makedirs(evdir, exist_ok=True)
